@@ -20,8 +20,8 @@ TEXT = {
          'SAFETY FRAGMENT ONLY: the schedule clauses of C11 (no stranded waiter, token conservation and barrier generations as whole-execution properties, ThreadBarrierSpin) are NOT decided by this technique. Bounded: at most 2 wake-ups per blocking call. Known finding: wait(delta, slack) when delta + slack wraps.'),
  'C17': ('every SplayTree operation (insert, erase, exists, find, clear, clear+reuse, destructor, traversal) enforced from an arbitrary valid search tree incl. the empty tree, for set and multiset mode; multiplicity by ghost key, node ledger',
          'Bounded: trees of <= 3 nodes (4 in thorough). LruCacheSet / LruCacheMap are NOT under contract. Assert-mode enforcement (assigns not checked).'),
- 'C14': ('layered contracts per digest: constructor == standard H0; process() == stream-to-block contract (blocks fed are the consecutive slices of buffer ++ data, tail buffered, length counts compressed bits) with the compression function abstracted by a logging stub and a ghost stream offset; finalize() == standard padding for every curlen_; compression == transcription of RFC 1321 / FIPS 180-4 in the thorough tier',
-         'Bounded: one process() call <= two blocks + 7 bytes. Reference text spec/digest_spec.h (constants generated from definitions, validated against hashlib each run). siphash_plain == SipHash-2-4 of the paper (spec/siphash_spec.h, checked against the published vectors each run) for every key and every message of 0..23 bytes (cvc5). digest_hex wrappers, siphash_sse2 and the dispatching tlx::siphash() not under contract. Assert-mode enforcement for process/finalize.'),
+ 'C14': ('layered contracts per digest: constructor == standard H0; process() == stream-to-block contract (blocks fed are the consecutive slices of buffer ++ data, tail buffered, length counts compressed bits) with the compression function abstracted by a logging stub and a ghost stream offset; finalize() == standard padding for every curlen_; the compression functions themselves are NOT decided (no back end finishes their equivalence with the standard), so the digest part is decided relative to them; siphash_plain == SipHash-2-4 of the paper',
+         'Bounded: one process() call <= two blocks + 7 bytes, one job per number of buffered bytes (quick: 1 and block-1 for MD5/SHA-1/SHA-256; thorough: 9 values per digest, SHA-512: 0, 1, 2). A wrong constant or rotation inside md5/sha1/sha256/sha512_compress is NOT detected. Reference text spec/digest_spec.h (constants generated from definitions, validated against hashlib each run). siphash_plain == SipHash-2-4 of the paper (spec/siphash_spec.h, checked against the published vectors each run) for every key and every message of 0..23, 130 and 255 bytes (cvc5). digest_hex wrappers, siphash_sse2 and the dispatching tlx::siphash() not under contract. Assert-mode enforcement for process/finalize.'),
  'C01': ('the seven node primitives on arbitrary node contents (complete for capacity 4/4, frame checked) and constructor, insert, erase_one, erase(iterator), exists, count, find, lower/upper_bound, begin/end, iterator ++/--, clear/destructor of btree_set / btree_multiset enforced from an arbitrary well-formed tree of depth <= 2 against the view (count of a ghost key, rank in leaf-chain order)',
          'Bounded: leaf/inner slots 4/4, depth <= 2 before and after (no growth to depth 3, no inner-level rebalancing inside a whole-tree job), 8-bit keys, set/multiset only; mutating whole-tree operations once per tuple of leaf fill degrees (keys symbolic; quick: the tuples reaching each leaf-level case, thorough: every tuple for a root with one separator plus six tuples with two). NOT decided: erase(iterator) on a multiset under an inner root, erase(key) of all duplicates, map/multimap, copy/assign/swap/bulk_load/comparisons. Whole-tree jobs: assert-mode enforcement (assigns not checked), pointer and bounds checks only.'),
  'C02': ('the same jobs as C01: the verify()-conditions as representation invariant (uniform depth, fill, order, separators, leaf chain, stats) after every mutating operation, and the node allocation ledger (live blocks == nodes; freed nodes never touched)',
